@@ -177,6 +177,8 @@ class Model:
 
 # --------------------------------------------------------------------------- context
 
+THOROUGH_SCALE = {'C05': 4, 'C06': 8, 'C07': 8, 'C12': 4, 'C14': 4, 'C17': 3, 'C18': 8, 'C20': 2}
+
 class Ctx:
     def __init__(self, prop, tier, seed, search=False):
         self.prop = prop
@@ -204,7 +206,14 @@ class Ctx:
         return self.tier == 'thorough' or self.search
 
     def n(self, quick, thorough):
-        return thorough if self.thorough else quick
+        if not self.thorough:
+            return quick
+        # the thorough TIER (not the failing-input search of a quick run) multiplies its case counts: per-property default
+        # chosen so that a thorough run takes minutes, env VERIF_THOROUGH_SCALE on top (a long soak: VERIF_THOROUGH_SCALE=10)
+        if self.tier == 'thorough' and not self.search and isinstance(thorough, int):
+            k = THOROUGH_SCALE.get(self.prop, 1) * float(os.environ.get('VERIF_THOROUGH_SCALE', '1'))
+            return max(thorough, int(thorough * k))
+        return thorough
 
     @property
     def model(self):
